@@ -1243,8 +1243,16 @@ func (fc *funcContext) translateConversion(expr ast.Expr, desiredType types.Type
 				return fc.fixNumber(fc.translateExpr(expr), t)
 			}
 		case isFloat(t):
-			if t.Kind() == types.Float32 && exprType.Underlying().(*types.Basic).Kind() == types.Float64 {
-				return fc.formatExpr("$fround(%e)", expr)
+			if t.Kind() == types.Float32 {
+				// The result has to be rounded to float32 precision, once.
+				switch et := exprType.Underlying().(*types.Basic); {
+				case et.Kind() == types.Float64:
+					return fc.formatExpr("$fround(%e)", expr)
+				case is64Bit(et):
+					return fc.formatExpr("$flatten64ToFloat32(%e)", expr)
+				case isInteger(et):
+					return fc.formatExpr("$fround(%e)", expr)
+				}
 			}
 			return fc.formatExpr("%f", expr)
 		case isComplex(t):
